@@ -526,6 +526,24 @@ func (fr *Frame) applyContract(st *State, sp *FuncSpec, fn *ssa.Function, sig *t
 		st.frontier = nf
 	}
 	res := fr.freshResults(st, sig, "r_"+short)
+	if sp.Pure && sp.Trusted && fn != nil && fn.Pkg != nil && !r.eng.inModule(fn.Pkg.Pkg.Path()) && sig.Results().Len() == 1 && sig.Recv() == nil {
+		// a trusted pure function of a dependency: its result is a function of its arguments (the same uninterpreted
+		// function a contract that mentions the call evaluates to), not a fresh value per call
+		var tvs []TV
+		okArgs := true
+		for i, a := range args {
+			if i >= sig.Params().Len() {
+				okArgs = false
+				break
+			}
+			tvs = append(tvs, r.toTV(st, a, sig.Params().At(i).Type()))
+		}
+		if okArgs {
+			if tv, err := cx.pureByContract(fn, sp, tvs); err == nil {
+				res = tv
+			}
+		}
+	}
 	bindResults(binds, sig, res)
 	cx2 := &evalCtx{fr: fr, run: r, st: st, old: pre, binds: binds, btypes: btypes, pkg: cx.pkg}
 	for _, c := range sp.Ensures {
